@@ -11,7 +11,7 @@
   of the matched text where the parser depends on it), one `Spec` per scanner method, loops by
   induction on their bound under `|rest| < bound`, `accept_expression` by induction on its fuel
   under `|rest| < fuel` with an open-recursion hypothesis `RecOK`, `run` by the measure
-  `3 * |rest| + rank fn`.
+  `3 * |rest| + rank fn`.  Nothing here depends on the text being a valid grammar.
 -/
 import PestModel.Front.Scan
 import PestModel.Lemmas.Unescape
@@ -658,7 +658,7 @@ theorem SR.Sat.bind' {α β} {N : Nat} {m : M α} {f : α → M β} {s : St} {P 
 theorem Spec.final {α} {N : Nat} {m : M α} (hm : Spec N m RLe) {s1 : St} (hs1 : Inv N s1)
     {L : Nat} (hl : s1.rest.length ≤ L) :
     (m s1).Sat N (fun _ s' => Inv N s' ∧ s'.rest.length ≤ L) :=
-  (hm s1 hs1).mono (fun _ s' h' => ⟨h'.1, Nat.le_trans h'.2 hl⟩)
+  (hm s1 hs1).mono (fun _ _ h' => ⟨h'.1, Nat.le_trans h'.2 hl⟩)
 
 theorem Spec.toLe {α} {N : Nat} {m : M α} {k : Nat} (hm : Spec N m (RGe k)) : Spec N m RLe :=
   hm.mono (fun _ l' l (h : l' + k ≤ l) => (by omega : l' ≤ l))
@@ -1117,6 +1117,155 @@ theorem acceptExpression_ok (N : Nat) : ∀ fuel, RecOK N fuel (acceptExpression
 theorem acceptExpressionTop_spec (N : Nat) :
     Spec N (fun s => acceptExpression (s.rest.length + 1) s) RLe :=
   fun s hs => acceptExpression_ok N _ s hs (Nat.lt_succ_self _)
+
+/-! ### the state functions -/
+
+theorem docInner_aux {N : Nat} {s : St} (hs : Inv N s) (sp : Nat) (hsp : sp ≤ s.rest.length) :
+    (SR.ok () ((s.adv (sp + (findNewline (s.rest.drop sp)).getD (s.rest.drop sp).length)).emit
+      .commentText (s.rest.take (sp + (findNewline (s.rest.drop sp)).getD
+        (s.rest.drop sp).length)))).Sat N
+      (fun a s' => Inv N s' ∧ RLe a s'.rest.length s.rest.length) := by
+  have hn : (findNewline (s.rest.drop sp)).getD (s.rest.drop sp).length ≤ s.rest.length - sp := by
+    cases hf : findNewline (s.rest.drop sp) with
+    | none => simp
+    | some n =>
+      have := findNewline_le _ n hf
+      simp only [List.length_drop] at this
+      simpa using this
+  generalize (findNewline (s.rest.drop sp)).getD (s.rest.drop sp).length = n at hn
+  refine ⟨(hs.adv (by omega)).emit trivial, ?_⟩
+  show ((s.adv (sp + n)).emit _ _).rest.length ≤ s.rest.length
+  simp only [emit_rest, adv_rest_length]; omega
+
+theorem docInner_spec (N : Nat) : Spec N docInner RLe := by
+  intro s hs
+  unfold docInner
+  dsimp only
+  refine docInner_aux hs _ ?_
+  cases s.rest with
+  | nil => simp
+  | cons c r => dsimp only; split <;> simp
+
+theorem optModifier_spec (N : Nat) : Spec N optModifier RLe := by
+  intro s hs
+  unfold optModifier
+  refine (scanEmit_spec scanOK_modifier N).bind hs (fun b s1 hs1 ⟨hl1, _⟩ => ?_)
+  cases b
+  · ite_clean; exact ⟨hs1, hl1⟩
+  · ite_clean; exact (triv_spec N).final hs1 hl1
+
+/-- `scan_grammar_rule` either stops (`None`) or has consumed the rule's identifier -/
+theorem ruleTail_sat {N : Nat} {s : St} (hs : Inv N s) :
+    (ruleTail s).Sat N (fun next s' => Inv N s' ∧ s'.rest.length ≤ s.rest.length ∧
+      ∀ fn', next = some fn' → fn' = .grammarRule ∧ s'.rest.length + 1 ≤ s.rest.length) := by
+  unfold ruleTail
+  refine (triv_spec N).bind hs (fun _ s1 hs1 (hl1 : s1.rest.length ≤ s.rest.length) => ?_)
+  refine (scanEmit_spec scanOK_identifier N).bind hs1 (fun b s2 hs2 ⟨hl2, hp2⟩ => ?_)
+  cases b
+  · ite_clean
+    by_cases he : s2.rest.isEmpty = true
+    · rw [if_pos he]; exact ⟨hs2, by omega, fun _ h => by cases h⟩
+    · rw [if_neg he]; exact error_sat hs2 _ _
+  · ite_clean
+    have := hp2 rfl
+    refine (triv_spec N).bind hs2 (fun _ s3 hs3 (hl3 : s3.rest.length ≤ s2.rest.length) => ?_)
+    refine (expect_spec N 61 .assignOp _ trivial).bind hs3
+      (fun _ s4 hs4 (hl4 : s4.rest.length + 1 ≤ s3.rest.length) => ?_)
+    refine (triv_spec N).bind hs4 (fun _ s5 hs5 (hl5 : s5.rest.length ≤ s4.rest.length) => ?_)
+    refine (optModifier_spec N).bind hs5 (fun _ s6 hs6 (hl6 : s6.rest.length ≤ s5.rest.length) => ?_)
+    refine (expect_spec N 123 .lbrace _ trivial).bind hs6
+      (fun _ s7 hs7 (hl7 : s7.rest.length + 1 ≤ s6.rest.length) => ?_)
+    refine (acceptExpressionTop_spec N).bind hs7
+      (fun _ s8 hs8 (hl8 : s8.rest.length ≤ s7.rest.length) => ?_)
+    refine (expect_spec N 125 .rbrace _ trivial).bind hs8
+      (fun _ s9 hs9 (hl9 : s9.rest.length + 1 ≤ s8.rest.length) => ?_)
+    exact ⟨hs9, by omega, fun _ h => by cases h; exact ⟨rfl, by omega⟩⟩
+
+/-- the rank of a state function: a call either consumes a character or continues with a
+    state function of lower rank -/
+def rank : Fn → Nat
+  | .grammarDocInner => 2
+  | .grammar => 1
+  | .ruleDocInner => 1
+  | .grammarRule => 0
+
+theorem stateFn_sat {N : Nat} (fn : Fn) {s : St} (hs : Inv N s) :
+    (stateFn fn s).Sat N (fun next s' => Inv N s' ∧
+      ∀ fn', next = some fn' → 3 * s'.rest.length + rank fn' < 3 * s.rest.length + rank fn) := by
+  cases fn with
+  | grammar =>
+    unfold stateFn
+    refine (triv_spec N).bind hs (fun _ s1 hs1 (hl1 : s1.rest.length ≤ s.rest.length) => ?_)
+    refine (scanEmit_spec (scanOK_lit sGDOC .grammarDoc (fun _ => trivial) (k := 3)
+      (by decide)) N).bind hs1 (fun b s2 hs2 ⟨hl2, hp2⟩ => ?_)
+    cases b
+    · ite_clean
+      refine ⟨hs2, fun fn' h => ?_⟩
+      cases h; simp only [rank]; omega
+    · ite_clean
+      have := hp2 rfl
+      refine ⟨hs2, fun fn' h => ?_⟩
+      cases h; simp only [rank]; omega
+  | grammarDocInner =>
+    unfold stateFn
+    refine (docInner_spec N).bind hs (fun _ s1 hs1 (hl1 : s1.rest.length ≤ s.rest.length) => ?_)
+    refine ⟨hs1, fun fn' h => ?_⟩
+    cases h; simp only [rank]; omega
+  | grammarRule =>
+    unfold stateFn
+    refine (triv_spec N).bind hs (fun _ s1 hs1 (hl1 : s1.rest.length ≤ s.rest.length) => ?_)
+    refine (scanEmit_spec (scanOK_lit sRDOC .ruleDoc (fun _ => trivial) (k := 3)
+      (by decide)) N).bind hs1 (fun b s2 hs2 ⟨hl2, hp2⟩ => ?_)
+    cases b
+    · ite_clean
+      refine (ruleTail_sat hs2).mono (fun next s3 ⟨hs3, hl3, hp3⟩ => ⟨hs3, fun fn' h => ?_⟩)
+      obtain ⟨rfl, _⟩ := hp3 fn' h
+      simp only [rank]; omega
+    · ite_clean
+      have := hp2 rfl
+      refine ⟨hs2, fun fn' h => ?_⟩
+      cases h; simp only [rank]; omega
+  | ruleDocInner =>
+    unfold stateFn
+    refine (docInner_spec N).bind hs (fun _ s1 hs1 (hl1 : s1.rest.length ≤ s.rest.length) => ?_)
+    refine ⟨hs1, fun fn' h => ?_⟩
+    cases h; simp only [rank]; omega
+
+/-- the bound on state-function calls suffices -/
+theorem run_sat (N : Nat) : ∀ (n : Nat) (fn : Fn) (s : St), Inv N s →
+    3 * s.rest.length + rank fn < n → (run n fn s).Sat N (fun _ s' => Inv N s')
+  | 0, _, _, _, h => by omega
+  | n + 1, fn, s, hs, h => by
+    rw [run]
+    refine SR.Sat.bind' (stateFn_sat fn hs) (fun next s1 ⟨hs1, hr1⟩ => ?_)
+    cases next with
+    | none => exact hs1
+    | some fn' =>
+      have := hr1 fn' rfl
+      exact run_sat N n fn' s1 hs1 (by omega)
+
+theorem init_inv (text : Text) : Inv text.length (St.init text) :=
+  ⟨Nat.le_refl _, by simp [St.init], fun _ h => by simp [St.init] at h⟩
+
+/-- **the scanner is total**: `tokenize` returns tokens the parser can digest, or raises a
+    `PestGrammarSyntaxError` whose token starts inside the text -/
+theorem scan_sat (text : Text) :
+    match scan text with
+    | .ok toks => ∀ t ∈ toks, TokOK text.length t
+    | .err _ st _ => st ≤ text.length
+    | .exc _ => False
+    | .oof => False := by
+  have h := run_sat text.length (3 * text.length + 3) .grammar (St.init text) (init_inv text)
+    (by simp only [St.init, rank]; omega)
+  unfold scan
+  cases hr : run (3 * text.length + 3) .grammar (St.init text) with
+  | ok a s =>
+    rw [hr] at h
+    intro t ht
+    exact h.toks t (List.mem_reverse.mp ht)
+  | err k st v => rw [hr] at h; exact h
+  | exc n => rw [hr] at h; exact h
+  | oof => rw [hr] at h; exact h
 
 end Front
 end Pest
